@@ -6,7 +6,10 @@ working tree (harness/c05_eval.cc) and the Lean model run with hardware doubles
 (c05_driver) on the same datasets x programs x evaluators; fitness bits and the difficulty
 vector are compared.  Independent of the model, every case is also judged by the property's own
 oracle (NaN / positive fitness, difficulty moved on the wrong rows, zero fitness without a match,
-fitness far from minus the documented mean).
+fitness far from minus the documented mean).  Round 3c: the declared type of every counter / accumulator of the
+evaluators and classifiers is extracted from the clang AST (tools/translate_counters.py -> GenCounters.lean, width
+obligation decided in Props.lean) and counter-width-directed multisets (`wrap`: 2^8+j / 2^16+j examples in one slot /
+class / verdict next to a minority) are judged by the documented rule evaluated on the multiset.
 """
 import glob
 import json
